@@ -24,7 +24,7 @@ BUDGET = {"quick": 600, "thorough": 3000}
 META = dict(
     rule="every track of length 0..N over 36 positions around the box (-10,-5,10,5) (lon,lat each below/on/inside/on/"
          "above the edges or missing) x bbox in {default, small box as list/tuple/floats, degenerate box} x range_max "
-         "in {None} + {0.9d, d, 1.1d : d a hop distance of the track}; the same over a 10-position globe menu "
+         "in {None} + {0.9d, d, 1.1d, floor(d), (floor(d)+d)/2 : d a hop distance of the track}; the same over a 10-position globe menu "
          "(antimeridian, poles, out-of-globe, missing) with the default box; product series of all positions in 3 "
          "orders; malformed boxes (3/5/0 items, None, str, number) and unequal lon/lat lengths must be rejected. Each "
          "state = one real call judged per point by the scalar reference (geographiclib per pair with explicit "
@@ -42,7 +42,10 @@ def range_cands(track):
     for i in range(1, len(track)):
         if R.full(lon, lat, i) and R.full(lon, lat, i - 1):
             d = R.geodist(lat[i - 1], lon[i - 1], lat[i], lon[i])
-            for v in (0.9 * d, d, 1.1 * d):
+            import math as _m
+            if not _m.isfinite(d):
+                continue
+            for v in (0.9 * d, d, 1.1 * d, float(_m.floor(d)), (float(_m.floor(d)) + d) / 2):
                 if v not in c:
                     c.append(v)
     return [None] + sorted(c)
